@@ -106,6 +106,10 @@ def gen_template(rng, compile_level):
     params = rng.sample(["n", "m", "toe", "rec"], rng.choice([0, 1, 2, 3]))
     args = [rng.choice([0, 1, 2, 3, 4, 6]) for _ in params]
     names = list(params)
+    use_tag = compile_level and rng.random() < 0.3
+    if use_tag:
+        # a text-valued argument (the command line passes words through unchanged), used only inside a name
+        params.append("tag"); args.append(rng.choice(["07", "7", "00", "a1", "012", "x"]))
     lines = []
     if compile_level:
         lines.append(("line", [("t", "declare component T%s: x -> x" % ("(%s)" % ", ".join(params) if params else ""))]))
@@ -128,6 +132,8 @@ def gen_template(rng, compile_level):
             else:
                 lines.append(("length", rng.choice(["tot", "k3"]), gen_expr(rng, names)))
                 if lines[-1][1] not in names: names.append(lines[-1][1])
+        if use_tag:
+            lines.append(("line", [("t", "sequence q_"), ("e", ["v", "tag"]), ("t", ' = "2N" x')]))
         lines.append(("line", [("t", 'strand Z = x "2A"')]))
         lines.append(("line", [("t", "structure W = Z : "), ("t", "U"), ("e", ["+", ["n", 2], ["n", 0]]), ("t", " U"), ("e", ["v", "__lenx"])]))
     else:
@@ -148,6 +154,7 @@ def bounded(tpl, limit=400):
     def ok(e):
         try: v = eval_ast(e, env)
         except Exception: return True, None
+        if isinstance(v, str): return True, v
         return abs(v) <= limit, v
     def toks_ok(toks):
         for t in toks:
@@ -244,7 +251,8 @@ def run(tier, seed, build):
             cases[-1]["compile"] = False
     # process_list is applied to the lines after the declaration when compiling; at text level we feed all lines
     impl = fw.run_impl("props.c13", "impl_case", [{k: c[k] for k in ("params", "args", "lines", "compile", "expanded")} for c in cases])
-    reqs = [["C13", [c["lines"], [[p, a] for p, a in zip(c["params"], c["args"])], [[src, sexp_expr(e)] for src, e in c["table"].items()]]] for c in cases]
+    for c in cases: c["nomodel"] = any(isinstance(a, str) for a in c["args"])     # the model's environment holds integers only
+    reqs = [["C13", [c["lines"], [[p, (0 if isinstance(a, str) else a)] for p, a in zip(c["params"], c["args"])], [[src, sexp_expr(e)] for src, e in c["table"].items()]]] for c in cases]
     model = fw.run_model(reqs)
     failures = []; nontrivial = set()
     dist = {"text_level": 0, "compile_level": 0, "eval_errors": 0, "with_groups": 0, "with_identical_groups": 0, "length_rebinds_param": 0, "no_final_newline": 0, "compiled_both": 0}
@@ -264,7 +272,7 @@ def run(tier, seed, build):
         if m[0] == "unsupported":
             failures.append({"kind": "tie", "key": "unsupported", "summary": "expression outside the modelled subset reached the model: %r" % m[1], "replay": rep}); continue
         if c["spec"] is None: dist["eval_errors"] += 1
-        if (mm[0] == "ok") != (got[0] == "ok") or (mm[0] == "ok" and mm[1] != got[1]):
+        if not c["nomodel"] and ((mm[0] == "ok") != (got[0] == "ok") or (mm[0] == "ok" and mm[1] != got[1])):
             failures.append({"kind": "disagreement", "key": "process_list", "summary": "process_list differs from the model: %r vs %r" % (str(got)[:200], str(mm)[:200]), "replay": rep})
         if c["spec"] is not None:
             want = c["spec"]
@@ -284,7 +292,7 @@ def run(tier, seed, build):
             elif a.get("outcome") != b.get("outcome"):
                 failures.append({"kind": "predicate", "key": "compile-accept", "summary": "template+args is %s but its hand expansion is %s: %s" % (a.get("outcome"), b.get("outcome"), (a.get("error") or b.get("error") or "")[:120]), "replay": dict(rep, expanded=c["expanded"])})
     return {"evaluations": len(cases), "distinct_nontrivial": len(nontrivial),
-            "rule": "65% free-form template lines (text, <expr> over parameters and earlier `length` names incl. rebinding of a declared parameter, brace groups with 1-3 alternatives incl. empty and identical neighbouring groups, expressions inside alternatives, comments, blank lines, files with and without a final newline) compared at text level with the model and with the declarative hand expansion; 35% well-formed component templates additionally compiled with arguments and compared with compiling the hand-expanded file. Non-trivial = contains a group or an expression and evaluates",
+            "rule": "65% free-form template lines (text, <expr> over parameters and earlier `length` names incl. rebinding of a declared parameter, brace groups with 1-3 alternatives incl. empty and identical neighbouring groups, expressions inside alternatives, comments, blank lines, files with and without a final newline) compared at text level with the model and with the declarative hand expansion; 35% well-formed component templates (a third with a text-valued argument such as 07 used inside a name; those are compared with the hand expansion only) additionally compiled with arguments and compared with compiling the hand-expanded file. Non-trivial = contains a group or an expression and evaluates",
             "samples": ["".join(c["lines"]) for c in cases[:3]], "distribution": dist, "failures": failures}
 
 def replay(path):
